@@ -290,8 +290,8 @@ func chunkOracle(prop string, res *RunResult) []Violation {
 }
 
 // secondPassSuffix marks chains in which a command that needs a second pass over its input (`fillnull` without a
-// field list: it must see every column first) follows a command that limits or orders the stream (head, tail,
-// sort, dedup): the recorded finding of that shape (the re-run of the limiting command loses rows).
+// field list: it must see every column first) follows a `sort`: the recorded finding of that shape (the rewind
+// re-runs the parallel chains and their merger over batches cut differently).
 func secondPassSuffix(text string) string {
 	limiting := false
 	for _, part := range strings.Split(text, "|")[1:] {
@@ -300,7 +300,9 @@ func secondPassSuffix(text string) string {
 			continue
 		}
 		switch f[0] {
-		case "head", "tail", "sort", "dedup":
+		case "sort":
+			// only a sort ahead of the two-pass command: the head-only form was a separate defect, repaired (fix
+			// 2574322), and must be reported again if it returns
 			limiting = true
 		case "fillnull":
 			allFields := true
